@@ -363,7 +363,13 @@ fn check_twin_file(or: &mut Oracle, tf: &TwinFile, replay: Value) {
             let rd = resolver.resolve(PlainRef { id: *d, gen: 0 });
             let rc = resolver.resolve(PlainRef { id: *c, gen: 0 });
             let (a, b) = (canon_result(&rd, &resolver), canon_result(&rc, &resolver));
-            if rd.is_err() && rc.is_err() {
+            // an object whose value is a reference is followed by `resolve` (repair of D32): the outcome is that
+            // of the target, which for a planted reference may legitimately be "no such object" — for both twins
+            if *kind == "reference" {
+                if a != b {
+                    bad.push((format!("twin-differs:{}", kind), format!("{} stored directly ({}) reads {}, stored in an object stream ({}) reads {}", kind, d, trunc(&a), c, trunc(&b))));
+                }
+            } else if rd.is_err() && rc.is_err() {
                 bad.push((format!("both-unreadable:{}", kind), format!("a conformant {} is readable neither as object {} nor as member {} ({}, {})", kind, d, c, a, b)));
             } else if a != b {
                 bad.push((format!("twin-differs:{}", kind), format!("{} stored directly ({}) reads {}, stored in an object stream ({}, {} member, separator {}, filter {:?}) reads {}", kind, d, trunc(&a), c, pos, sepk, filter, trunc(&b))));
@@ -377,7 +383,7 @@ fn check_twin_file(or: &mut Oracle, tf: &TwinFile, replay: Value) {
                 if !same {
                     bad.push((format!("twin-differs-flags:{}", kind), format!("{} requested with flags {:?}: direct {} reads {}, compressed {} reads {}", kind, fl, d, trunc(&a), c, trunc(&b))));
                 }
-                if fl == flags_for(kind) && fd.is_err() {
+                if fl == flags_for(kind) && fd.is_err() && *kind != "reference" {
                     bad.push((format!("flags-refused:{}", kind), format!("{} {} refused with its own flag {:?}", kind, d, fl)));
                 }
             }
